@@ -325,10 +325,58 @@ else:
 """
 
 
+HANDLER_BUFFER_TEMPLATE = """
+blockshape = list(l1.shape)
+axis = self._get_swap_axes(l1, l2)
+if len(axis) != 0:
+    blockshape[axis[0]] = l1.max_block_shape[axis[0]]
+    blockshape[axis[1]] = l2.max_block_shape[axis[0]]
+"""
+
+
+def handler_buffer(chk, mod):
+    """LayoutHandler.__init__: the block of every connected pair starts from that pair's own local shape"""
+    from ..core import find
+    rel, q = mod.rel, "LayoutHandler.__init__"
+    fn = mod.func(q)
+    b = find(fn, HANDLER_BUFFER_TEMPLATE, vars=("l1", "l2"))
+    bad = None
+    if b is None:
+        calls = [n for n in ast.walk(fn) if isinstance(n, ast.Call) and src(n.func) == "self._get_swap_axes"]
+        if calls:
+            def loops(n):
+                out = []
+                while n is not fn:
+                    n = parent(n)
+                    if isinstance(n, (ast.For, ast.While)):
+                        out.append(n)
+                return out
+            inner = loops(calls[0])
+            tgt = None
+            for n in ast.walk(fn):
+                if isinstance(n, ast.Assign) and isinstance(n.targets[0], ast.Subscript) and isinstance(n.targets[0].value, ast.Name) \
+                        and "max_block_shape" in src(n.value):
+                    tgt = n.targets[0].value.id
+            if tgt:
+                init = [n for n in ast.walk(fn) if isinstance(n, ast.Assign) and src(n.targets[0]) == tgt]
+                if init and len(loops(init[0])) < len(inner):
+                    bad = (f"`{src(init[0])}` (line {init[0].lineno}) is created outside the loop over connected layouts but its entries are "
+                           "overwritten for every pair: a layout connected to two others through different axes keeps the padded extent "
+                           "of the previous pair, and bufferSize can come out smaller than a block the transposes move")
+    chk.pat("G4-bufsize-handler-block", fn, "blockshape = list(l1.shape) per connected pair, then the two swapped extents padded", b is not None,
+            "for every connected pair the exchange block is this pair's local shape with the concatenated and the split axis padded to "
+            "the largest block; the advertised size is the maximum over pairs", bad, file=rel, func=q)
+    ok = contains(fn, "if buffsize > self._buffer_size:\n    self._buffer_size = buffsize", vars=("buffsize",)) is not None and \
+        contains(fn, "self._buffer_size = X.size", vars=("X",)) is not None
+    chk.pat("G4-bufsize-handler-block", fn, "self._buffer_size = max(first layout's size, every pair's block)", ok,
+            "the advertised size starts from a local block and only grows", file=rel, func=q)
+
+
 def init_buffer(chk, mod):
     """advertised size covers every handler's size and every gather's receive size"""
     from ..core import find
     rel = mod.rel
+    handler_buffer(chk, mod)
     q = "LayoutSwapper.__init__"
     fn = mod.func(q)
     ok1 = contains(fn, "buffSize = [x.bufferSize for x in self._managers]\nself._buffer_size = max(buffSize)", vars=("x",))
@@ -338,6 +386,23 @@ def init_buffer(chk, mod):
     chk.pat("G4-bufsize-gather", fn, "gather receive size in __init__", ok2,
             "buffer covers (padded scattered block) x (size of the scattered side's communicator) for every gather pair",
             file=rel, func=q)
+
+
+def comm_identity_diagnosis(fn):
+    """communicators of two handlers compared through a derived quantity (size, rank) instead of as objects"""
+    for n in ast.walk(fn):
+        if isinstance(n, ast.Assign) and isinstance(n.targets[0], ast.Name) and isinstance(n.value, (ast.ListComp, ast.Call)):
+            v = n.value
+            if isinstance(v, ast.ListComp) and "communicators" in src(v.generators[0].iter) and isinstance(v.elt, ast.Call) \
+                    and isinstance(v.elt.func, ast.Attribute) and v.elt.func.attr in ("Get_size", "Get_rank", "Get_dim"):
+                return (f"`{src(n)}`: the communicators of the two handlers are matched by `{v.elt.func.attr}()`: two different process "
+                        "axes with the same extent (square process grids) are taken for the same communicator, so the wrong axis is "
+                        "gathered/scattered (or the layouts are declared unconnected)")
+    for n in ast.walk(fn):
+        if isinstance(n, ast.Compare) and any(isinstance(x, ast.Call) and isinstance(x.func, ast.Attribute) and x.func.attr == "Get_size"
+                                              for x in [n.left] + n.comparators) and isinstance(n.ops[0], (ast.In, ast.Eq)):
+            return (f"`{src(n)}` matches communicators by size: process axes of equal extent are confused")
+    return None
 
 
 def run(chk):
@@ -391,9 +456,19 @@ idx_s = np.nonzero(np.array(possComms) != None)[0][0]
 idx_g = layout_gathered.dims_order.index(layout_scattered.dims_order[idx_s])
 return (idx_g, idx_s)
 """)
+    bad = None
+    if not okga:
+        bad = comm_identity_diagnosis(ga)
     chk.pat("A1-getaxes-definition", ga, "getAxes", okga,
             "returns (axis of the gathered layout carrying the scattered dimension, process axis of the scattered handler "
-            "whose communicator the gathered handler lacks)", file=U.LAYOUT, func="LayoutSwapper.getAxes")
+            "whose communicator the gathered handler lacks)", bad, file=U.LAYOUT, func="LayoutSwapper.getAxes")
+    # the same matching in _compatibleLayout: communicators are matched as objects
+    for q in ("LayoutSwapper._compatibleLayout", "LayoutSwapper.getAxes"):
+        f_ = mod.func(q)
+        d = comm_identity_diagnosis(f_)
+        chk.ob("A1-communicator-identity", f_, f"{q}: handlers' communicators matched as objects", d is None,
+               "a process axis of one handler is identified with an axis of the other only if both hold the very same communicator"
+               if d is None else d, file=U.LAYOUT, func=q)
     chk.floor("D2-result-in-dest", 14)
     chk.floor("M1-current-manager", 14)
     chk.floor("A1-index-ownership", 16)
